@@ -98,9 +98,10 @@ def gen_case(rng, i):
             if how == "eq":
                 co, _ = lst[j]
                 v = lhs_at(co, pt)
-                lst[j] = (co, v if wild else float("%.4g" % v))
-                if not wild and lst[j][1] != v:
-                    how = "other"
+                if not wild and float("%.4g" % v) != v:
+                    how = "other"            # the value at the planted point has more than four digits: leave the row as it is
+                else:
+                    lst[j] = (co, v)
             opp = opposite(lst[j], how, rng, wild, pt)
             if how == "abs" and opp[1] != lst[j][1]:
                 lst[j] = (lst[j][0], opp[1])
